@@ -191,6 +191,15 @@ def startup_cases(tier):
                         yield {'kind': 'sweep', 'spawner': 'POPEN', 'bulks': [[spec]], 'moves': moves}
 
 
+def burst_cases(tier):
+    """more tasks are launched between two passes of the process watcher than it takes over in one
+    pass (its bulk limit is 100): none may be lost"""
+    for n in (100, 101, 130):
+        for code in (0, 1):
+            yield {'kind': 'sweep', 'spawner': 'POPEN', 'bulks': [[{'exit': code} for _ in range(n)]],
+                   'moves': [['submit'], ['named', 'intake', 30 * n]]}
+
+
 def parts(tier):
     return [
         Part('popen_schedules', schedules(), quick=300, thorough=2500),
@@ -199,6 +208,7 @@ def parts(tier):
         Part('preemption_sweep', enum=sweep_cases),
         Part('two_task_sweep', enum=sweep2_cases),
         Part('startup_report', enum=startup_cases),
+        Part('launch_bursts', enum=burst_cases),
     ]
 
 
